@@ -2857,7 +2857,10 @@ func (lv *leafValue) lastUpdateBetween(hLog appendable.Appendable, initialTs, fi
 	hOff := lv.hOff
 	skippedUpdates := uint64(0)
 
-	for i := uint64(0); i < lv.hCount; i++ {
+	// hCount is the number of updates stored in the history log, a single block may hold several of them.
+	// The chain of blocks for this key ends once all those updates were visited: prevOff of the oldest block
+	// is not a reference to another block of this key
+	for skippedUpdates < lv.hCount {
 		r := appendable.NewReaderFrom(hLog, hOff, DefaultMaxNodeSize)
 
 		hc, err := r.ReadUint32()
